@@ -1,6 +1,7 @@
 package k
 
 import (
+	"math/rand"
 	"database/sql"
 	"encoding/json"
 	"errors"
@@ -150,9 +151,11 @@ type SendRec struct {
 }
 
 type shell struct {
-	sim    *Sim
-	kind   t_aio.Kind
-	cap    int
+	sim  *Sim
+	kind t_aio.Kind
+	// flushed: the kernel called Flush during the current tick
+	flushed bool
+	cap     int
 	q      []*aioSQE
 	parked []*aioCQE
 }
@@ -161,7 +164,7 @@ func (s *shell) String() string           { return "sim:" + s.kind.String() }
 func (s *shell) Kind() t_aio.Kind         { return s.kind }
 func (s *shell) Start(chan<- error) error { return nil }
 func (s *shell) Stop() error              { return nil }
-func (s *shell) Flush(int64)              {}
+func (s *shell) Flush(int64)              { s.flushed = true }
 func (s *shell) Enqueue(sqe *aioSQE) bool {
 	limit := s.cap
 	if s.sim.fair {
@@ -256,7 +259,7 @@ func (s *Sim) checkHeldBodies() {
 		}
 		if string(m.bodyRef) != m.Body {
 			m.bodyBad = true
-			s.violate("C19.body_changed_after_handoff", P("C19", "C18", "C08"), "dispatch", "the bytes of a message handed to a transport changed afterwards", fmt.Sprintf("task %s: handed over %s, the transport now holds %s", m.TaskId, m.Body, string(m.bodyRef)))
+			s.violate("C19.body_changed_after_handoff", P("C19", "C18", "C08", "C20"), "dispatch", "the bytes of a message handed to a transport changed afterwards", fmt.Sprintf("task %s: handed over %s, the transport now holds %s", m.TaskId, m.Body, string(m.bodyRef)))
 		}
 	}
 }
@@ -352,6 +355,7 @@ type Sim struct {
 	// hand-off outcomes used, cyclically, by sender work inside a settle step that carries them
 	autoOutcomes []string
 	autoIdx      int
+	autoFaults   *rand.Rand
 	image        string // crash image taken at a fault point, used by the crash that follows
 	lives        int
 	innerDt      int64 // clock advance of the ticks inside an automatic round
@@ -643,10 +647,13 @@ func (s *Sim) Exec(i int, st *Step) (ran bool) {
 	case "settle":
 		s.autoOutcomes, s.autoIdx = st.Outcomes, 0
 		s.firstDt = st.Dt
+		if st.FaultSeed != 0 {
+			s.autoFaults = rand.New(rand.NewSource(st.FaultSeed))
+		}
 		if lim := s.Cfg.SignalTimeoutMs / 4; st.Inner > 0 && st.Inner <= lim {
 			s.innerDt = st.Inner
 		}
-		defer func() { s.autoOutcomes, s.innerDt, s.firstDt = nil, 0, 0 }()
+		defer func() { s.autoOutcomes, s.innerDt, s.firstDt, s.autoFaults = nil, 0, 0, nil }()
 		return s.stepSettle(st.Rounds)
 	}
 	return false
@@ -682,7 +689,18 @@ func (s *Sim) stepTick(dt int64) bool {
 	s.Now += dt
 	s.Ticks = append(s.Ticks, s.Now)
 	s.nextEv()
+	for _, sh := range s.shells {
+		sh.flushed = false
+	}
 	s.sys.Tick(s.Now)
+	// a batching worker releases a partial batch only when it is flushed, and a flush can be
+	// consumed before the submissions it was meant for: whatever waits in a subsystem at the end of
+	// a tick must have been flushed during that tick (the next tick does it again)
+	for _, kind := range []t_aio.Kind{t_aio.Router, t_aio.Sender, t_aio.Store} {
+		if sh := s.shells[kind]; sh != nil && len(sh.q) > 0 && !sh.flushed && s.alive {
+			s.violate("K.no_flush", []string{"C12"}, "kernel", "submissions wait in a subsystem at the end of a tick that did not flush it", fmt.Sprintf("%s holds %d submission(s)", kind, len(sh.q)))
+		}
+	}
 	return true
 }
 
@@ -1239,7 +1257,23 @@ func (s *Sim) autoRound(dt int64) {
 	for guard := 0; guard < 10000; guard++ {
 		moved := false
 		for _, sub := range []string{"router", "store", "sender"} {
-			if s.stepWork(&Step{Op: "work", Sub: sub}) {
+			ws := &Step{Op: "work", Sub: sub}
+			if fr := s.autoFaults; fr != nil {
+				// faults inside whole background cycles (settle steps that carry a fault seed)
+				if n := len(s.shellByName(sub).q); n > 0 {
+					for i := 0; i < n; i++ {
+						if fr.Intn(16) == 0 {
+							ws.Pre = append(ws.Pre, i)
+						} else if fr.Intn(16) == 0 {
+							ws.Post = append(ws.Post, i)
+						}
+					}
+					if sub == "store" && fr.Intn(20) == 0 {
+						ws.Sql = &faultdb.Fault{Where: pick(fr, []string{"stmt", "stmt", "commit", "begin"}), At: fr.Intn(6), Err: pick(fr, []string{"full", "ioerr", "busy"})}
+					}
+				}
+			}
+			if s.stepWork(ws) {
 				moved = true
 			}
 			if s.stepDeliver(sub, 0) {
@@ -1263,7 +1297,10 @@ func (s *Sim) autoRound(dt int64) {
 			return
 		}
 	}
-	panic("harness: autoRound did not settle")
+	// ten thousand scheduling rounds without the kernel going idle: requests or background
+	// coroutines retry for ever (with the clock standing still or moving by a fraction of a period)
+	s.violate("K.livelock", []string{"C12", "C11"}, "kernel", "no quiescence after 10000 scheduling rounds in one background period", fmt.Sprintf("queues: store=%d router=%d sender=%d completions=%d", len(s.shells[t_aio.Store].q), len(s.shells[t_aio.Router].q), len(s.shells[t_aio.Sender].q), s.inCQ))
+	s.doCrash()
 }
 
 // stepSettle runs a few fault-free scheduling rounds (used by prologues); no
